@@ -1053,3 +1053,32 @@ Proof.
   unfold run_handler_rd, connect_invoked, rd_ok; rewrite R.
   destruct k; cbn [andb app]; rewrite ?andb_false_r; reflexivity.
 Qed.
+
+(* ---- empty / malformed frames close ---- *)
+Lemma bad_frame_closes : forall g s l s' o,
+  step g s l = Some (s', o) -> bad_frame l = true -> s_closed s' = true.
+Proof.
+  intros g s l s' o H B. destruct l as [cs m| |tok r]; try discriminate. cbn [step bad_frame] in *.
+  unfold handle_frame in H.
+  destruct (handle_cmds g s cs) as [[[s1 o1] p1]|]; [|discriminate].
+  destruct p1; [rewrite B in H|]; destruct (s_closed s1) eqn:C1; inversion H; subst; cbn; auto.
+Qed.
+
+Lemma saw_close_has_close : forall l, saw_close l = has_close l.
+Proof. reflexivity. Qed.
+
+Lemma exec_frames_ok : forall g ls s s' os,
+  exec g s ls = Some (s', os) -> frames_ok (s_closed s) ls os = true.
+Proof.
+  induction ls as [|l r IH]; intros s s' os H; cbn [exec] in H.
+  - inversion H; subst. reflexivity.
+  - destruct (step g s l) as [[s1 o1]|] eqn:E; [|discriminate].
+    destruct (exec g s1 r) as [[s2 os2]|] eqn:E2; [|discriminate].
+    inversion H; subst. cbn [frames_ok].
+    rewrite saw_close_has_close, <- (step_close _ _ _ _ _ E), (IH _ _ _ E2), andb_true_r.
+    destruct (bad_frame l) eqn:B; [|reflexivity]. cbn [negb orb]. eapply bad_frame_closes; eassumption.
+Qed.
+
+Lemma exec_frames_ok_init : forall g ls s os,
+  exec g init ls = Some (s, os) -> frames_ok false ls os = true.
+Proof. intros g ls s os H. exact (exec_frames_ok g ls init s os H). Qed.
